@@ -180,6 +180,7 @@ func build(e *env) (post func() string) {
 	var ro <-chan int
 	if nIn > 0 {
 		ro = e.in[0]
+		e.prefill()
 	}
 	ctx := e.ctx
 
@@ -728,4 +729,13 @@ func (e *env) openPhaseCheck() string {
 		}
 	}
 	return ""
+}
+
+// prefill puts the first elements of input 0 into its buffer before the stage is created.
+func (e *env) prefill() {
+	n := min(e.sc.Prefill, cap(e.in[0]), len(e.sc.In[0]))
+	for k := 0; k < n; k++ {
+		e.in[0] <- e.sc.In[0][k]
+	}
+	e.next[0], e.accepted[0] = n, n
 }
